@@ -590,6 +590,7 @@ struct runner
 			});
 		}
 		else if (c == "rslv_cancel") rslvs.at(arg(1))->cancel();
+		else if (c == "set_next_port") sim->verif_set_next_bind_port(std::uint16_t(arg(1)));
 		else if (c == "pcap_on")
 		{
 			char path[] = "/tmp/verif_pcap_XXXXXX";
@@ -653,6 +654,13 @@ struct runner
 				tr.line("X t=%lld ret=%zu", now_ns(), r);
 			}
 			else if (l[1] == "restart") sim->restart();
+			else if (l[1] == "repeat")
+			{
+				// M repeat <n> op ; op ; op
+				std::vector<toks> ops(1);
+				for (size_t j = 3; j < l.size(); ++j) { if (l[j] == ";") ops.emplace_back(); else ops.back().push_back(l[j]); }
+				for (long long r = 0; r < ll(l[2]); ++r) for (auto const& o : ops) op(o, 0);
+			}
 			else op(l, 1);
 		}
 		// tear down: objects first, then nodes, then the simulation (flushes the capture)
